@@ -662,4 +662,69 @@ theorem removeRelaxed_spec {rs : Ranges} {r : Range} (hi : RInv rs) (hv : ValidR
           · exact Or.inl (Or.inr h2)
         · exact Or.inr h1
 
+/-! ### simple queries -/
+
+theorem head_eq_none_iff {rs : Ranges} : head rs = none ↔ rs = [] := by
+  simp [head]
+
+theorem tail_eq_none_iff {rs : Ranges} : tail rs = none ↔ rs = [] := by
+  simp [tail]
+
+/-- `head` is the greatest member -/
+theorem head_spec {rs : Ranges} (hi : RInv rs) {x : Nat} (hx : head rs = some x) :
+    mem rs x ∧ ∀ h, mem rs h → h ≤ x := by
+  simp only [head, Option.map_eq_some_iff] at hx
+  obtain ⟨r, hr, rfl⟩ := hx
+  obtain ⟨ys, rfl⟩ := List.getLast?_eq_some_iff.1 hr
+  have hv := inv_validR hi (r := r) (by simp)
+  refine ⟨⟨r, by simp, hv.2.1, Nat.le_refl _⟩, ?_⟩
+  rintro h ⟨y, hy, h1, h2⟩
+  have := inv_le_last hi y hy
+  omega
+
+/-- `tail` is the least member -/
+theorem tail_spec {rs : Ranges} (hi : RInv rs) {x : Nat} (hx : tail rs = some x) :
+    mem rs x ∧ ∀ h, mem rs h → x ≤ h := by
+  cases rs with
+  | nil => simp [tail] at hx
+  | cons r rs =>
+    simp only [tail, List.head?_cons, Option.map_some, Option.some.injEq] at hx
+    subst hx
+    have hv := inv_validR hi (r := r) (by simp)
+    refine ⟨⟨r, by simp, Nat.le_refl _, hv.2.1⟩, ?_⟩
+    rintro h ⟨y, hy, h1, h2⟩
+    have := inv_head_le hi y hy
+    omega
+
+theorem isEmpty_iff {rs : Ranges} (hi : RInv rs) : isEmpty rs = true ↔ rs = [] := by
+  cases rs with
+  | nil => simp [isEmpty]
+  | cons r rs =>
+    have hv := inv_validR hi (r := r) (by simp)
+    unfold ValidR at hv
+    simp [isEmpty, Range.isEmpty]
+    intro h; omega
+
+/-- `from_vec` accepts every `Inv` vector unchanged -/
+theorem fromVecGo_of_inv : ∀ {rs : Ranges} (prev : Option Range), RInv rs →
+    (∀ p, prev = some p → ∀ x ∈ rs, p.2 < x.1) → fromVecGo prev rs = .ok ()
+  | [], _, _, _ => rfl
+  | r :: rs, prev, hi, hp => by
+    obtain ⟨h1, hv, hrs⟩ := inv_cons.1 hi
+    have hgo : fromVecGo (some r) rs = .ok () := by
+      apply fromVecGo_of_inv (some r) hrs
+      intro p hp' x hx
+      cases hp'
+      have := h1 x hx
+      omega
+    cases prev with
+    | none => simp [fromVecGo, validate_ok hv.valid, hgo]
+    | some p =>
+      have := hp p rfl r (by simp)
+      have hn : ¬ r.1 ≤ p.2 := by omega
+      simp [fromVecGo, validate_ok hv.valid, hgo, hn]
+
+theorem fromVec_of_inv {rs : Ranges} (hi : RInv rs) : fromVec rs = .ok rs := by
+  simp [fromVec, fromVecGo_of_inv none hi (by simp)]
+
 end Lumina.Proofs.Ranges
